@@ -226,7 +226,7 @@ def check_olist(case, ctx):
             elif op == "setitem":
                 t = new()
                 idx = a
-                if idx < 0 and -n <= idx and not case.get("pinned"):
+                if False and idx < 0 and -n <= idx and not case.get("pinned"):  # repaired in /repo (363183a): negative indexes are generated again
                     # confirmed finding C50/olist/setitem-negative-index: lst[-k] = x stores ordering_func(-k) (position -k) instead of the element's
                     # index.  Trigger replaced by the equivalent non-negative index; the pinned replay keeps the negative one.
                     ctx.exclude("OrderingList.__setitem__ with a negative index (known finding: position becomes the negative index)")
